@@ -395,7 +395,7 @@ func ruleRevisionZeroFrames(c *Ctx, rule string) {
 	w := c.W
 	a := w.Anchors()
 	n := 0
-	for _, e := range c.realEmitSites() {
+	for _, e := range c.emitSeq() {
 		if !strings.HasSuffix(e.Kind, "_WindowUpdate") {
 			continue
 		}
